@@ -41,6 +41,13 @@ let init () =
     | _ -> "BAD-ARGS");
   register "rr_points" (fun a ->
     let (r, _) = rr_in a in list_out (fun p -> z_out p.px ^ ":" ^ z_out p.py) (rr_points r));
+  register "rr_all" (fun a ->
+    let (r, _) = rr_in a in
+    let c = rrc_new r in
+    "C " ^ srad (rr_confine_radii r).rr_corners
+    ^ " B " ^ bitmap r.rr_rect 2 (fun p -> rrc_contains c p)
+    ^ " P " ^ list_out (fun p -> z_out p.px ^ ":" ^ z_out p.py) (rr_points r)
+    ^ " BB " ^ srect (rr_bounding_box r));
   register "rr_offset" (fun a ->
     match rr_in a with
     | (r, [n]) -> srr (rr_offset r (z_in n))
